@@ -21,9 +21,9 @@ type Obligation struct {
 	Label  string // contract label (with property tags) if any
 	Pos    string
 	Desc   string
-	N      int    // number of script assertions visible
-	Hyp    Term   // path condition
-	Goal   Term   // must hold under Hyp
+	N      int  // number of script assertions visible
+	Hyp    Term // path condition
+	Goal   Term // must hold under Hyp
 	Script *Script
 	Inline bool // generated inside an inlined callee
 	// results
@@ -60,15 +60,15 @@ func (st *State) clone() *State {
 
 // Loc describes where a pointer points.
 type Loc struct {
-	kind string // "obj" (ref to flattened struct or cell), "elem"
-	typ  types.Type // pointee type
-	ref  Term       // base object reference (obj) / array ref (elem)
-	idx  Term       // element index (elem)
-	root types.Type // obj: outermost struct type the path starts from (nil for cells)
-	path string     // obj: flattened field path "a.b"
-	sub  []int      // elem: field indices inside the element value
-	elemT types.Type // elem: element type of the array
-	origin string   // guarded-field provenance, e.g. "core.IndexedState.IdToFact"
+	kind   string     // "obj" (ref to flattened struct or cell), "elem"
+	typ    types.Type // pointee type
+	ref    Term       // base object reference (obj) / array ref (elem)
+	idx    Term       // element index (elem)
+	root   types.Type // obj: outermost struct type the path starts from (nil for cells)
+	path   string     // obj: flattened field path "a.b"
+	sub    []int      // elem: field indices inside the element value
+	elemT  types.Type // elem: element type of the array
+	origin string     // guarded-field provenance, e.g. "core.IndexedState.IdToFact"
 }
 
 type closureInfo struct {
@@ -78,34 +78,34 @@ type closureInfo struct {
 
 // Exec symbolically executes one function (and inlined callees) into a Script.
 type Exec struct {
-	V      *Verifier
-	sc     *Script
-	root   *ssa.Function
-	obls   []*Obligation
-	notes  map[string]bool // assumptions / unsupported features encountered
-	counts map[string]int  // for obligation naming
-	depth  int
-	ifaces map[string]*types.Interface // interfaces asserted against
+	V        *Verifier
+	sc       *Script
+	root     *ssa.Function
+	obls     []*Obligation
+	notes    map[string]bool // assumptions / unsupported features encountered
+	counts   map[string]int  // for obligation naming
+	depth    int
+	ifaces   map[string]*types.Interface // interfaces asserted against
 	lockMode bool
 }
 
 type frame struct {
-	ex     *Exec
-	fn     *ssa.Function
-	pfx    string
-	vals   map[ssa.Value]Term
-	tuples map[ssa.Value][]Term
-	locs   map[ssa.Value]*Loc
-	clos   map[ssa.Value]*closureInfo
-	origin map[ssa.Value]string // value loaded from guarded field
-	inline bool
-	contract *Contract
-	entry  *State // entry state (for old())
-	params []Term
-	results []Term // at exit (merged)
-	exit   *State
-	loopInfo map[*ssa.BasicBlock]*loopInfo
-	rangeMap map[ssa.Value]ssa.Value // Range value -> ranged collection
+	ex           *Exec
+	fn           *ssa.Function
+	pfx          string
+	vals         map[ssa.Value]Term
+	tuples       map[ssa.Value][]Term
+	locs         map[ssa.Value]*Loc
+	clos         map[ssa.Value]*closureInfo
+	origin       map[ssa.Value]string // value loaded from guarded field
+	inline       bool
+	contract     *Contract
+	entry        *State // entry state (for old())
+	params       []Term
+	results      []Term // at exit (merged)
+	exit         *State
+	loopInfo     map[*ssa.BasicBlock]*loopInfo
+	rangeMap     map[ssa.Value]ssa.Value // Range value -> ranged collection
 	namedResults []*ssa.Alloc
 }
 
